@@ -232,6 +232,7 @@ def gen_records(rng, n, paired, fastq, adapters1, adapters2, maxlen=60, r2_maxle
                 times=1, revcomp=False):
     recs = []
     style = rng.choice(["none", "none", "casava", "text", "mixed"])
+    casava_numbers = rng.choice([(1, 2), (1, 2), (1, 2), (2, 1), (2, 3), (1, 1)])
     for i in range(n):
         rid = f"rd{i:05d}"
         st = style if style != "mixed" else rng.choice(["none", "casava", "text"])
@@ -239,7 +240,10 @@ def gen_records(rng, n, paired, fastq, adapters1, adapters2, maxlen=60, r2_maxle
             flag = rng.choice("NNNY")
             idx_ = rand_seq(rng, 6)
             flag2 = flag if rng.random() < 0.7 else rng.choice("NY")  # mates may disagree
-            c1, c2 = f"1:{flag}:0:{idx_}", f"2:{flag2}:0:{idx_}"
+            # the read number in the comment need not be the position of the file on the command line
+            # (reverse reads given first, R2/R3 of a three-read run)
+            n1_, n2_ = casava_numbers
+            c1, c2 = f"{n1_}:{flag}:0:{idx_}", f"{n2_}:{flag2}:0:{idx_}"
         elif st == "text":
             c = rng.choice(["length=33", "x y", "foo;bar", "a=b c=d"])
             c1 = c2 = c
@@ -491,6 +495,8 @@ def default_profile():
         p_devnull=0.0,
         p_case_name=0.0,
         same_name_without_demux=False,  # (C20) same-named adapters also without {name} in the output
+        p_long_tail=0.01,  # reads of 1-3 kb with the adapter a thousand bases from the end
+        p_adjacent_duplicates=0.06,  # consecutive reads with identical sequences
         p_enospc=0.0,  # (C04) disk full behind one output file
         p_devfd=0.0,  # (C06, C12) inputs through /dev/fd/N pipes (process substitution)
         p_empty_adapter_file=0.0,  # (C05) an adapter file without records for the read that has no adapters
@@ -530,14 +536,17 @@ def gen_case(rng, profile=None):
 
     # ---- adapters
     ad1, ad2 = [], []
+    many = False
     named = bool(demux) or P["require_named"] or rng.random() < 0.3
     if rng.random() < P["p_adapters"] or demux or pair_adapters:
         k1 = rng.choice([1, 1, 1, 2, 2, 3, 4]) if not demux else rng.randint(1, 4)
         indexed_set = (not pair_adapters) and rng.random() < 0.12
+        many = False
         if named and not pair_adapters and demux != "combinatorial" and rng.random() < P["p_many_adapters"]:
             # a barcode set: several hundred anchored adapters (an index is built; > 255 of them)
             k1 = rng.randint(260, 330)
             indexed_set = True
+            many = True
         for i in range(k1):
             nm = f"ad{i}" if named else None
             if indexed_set:
@@ -825,6 +834,16 @@ def gen_case(rng, profile=None):
     rb = rng.random()
     big = 2 if rb < P["p_huge"] else (1 if rb < P["p_huge"] + P["p_big"] else 0)
     want_same_name = (demux == "normal" or (not demux and P["same_name_without_demux"])) and rng.random() < P["p_same_name"]
+    plant1 = ad1
+    if many and len(ad1) > 200:
+        # samples of very unequal depth: most reads carry the first or the last barcode of the list -
+        # which half of the time are two barcodes of one sample (same name, far apart)
+        deep = [ad1[0], ad1[-1]]
+        plant1 = deep * 900 + ad1
+        if demux == "normal" and rng.random() < 0.5:
+            want_same_name = "ends"
+        if not big and rng.random() < 0.7:
+            big = rng.choice([1, 2, 2])
     if want_same_name and not big and rng.random() < 0.2:
         # names that share a file matter once the file is larger than the writers' buffers
         big = 1
@@ -839,12 +858,32 @@ def gen_case(rng, profile=None):
         # 0.3-1 MiB), so that size-dependent paths (buffer re-use thresholds, pipe-sized
         # messages, compressor block sizes) run at all
         n = rng.randint(2500, 6000) if big == 1 else rng.randint(12000, 20000)
+        if many and big == 2:
+            n = rng.randint(24000, 30000)  # (enough reads for the deep samples to fill the writers' buffers)
         P = dict(P, maxlen=150)
     r2max = P["maxlen"]
     if paired and rng.random() < 0.3:
         r2max = rng.choice([8, 15, 120])  # very different R1/R2 lengths: chunk limits differ
-    records = gen_records(rng, n, paired, fastq, ad1, ad2, P["maxlen"], r2max, P["upper_only"], times, revcomp)
-    if records and big and rng.random() < (0.5 if big < 3 else 0.8):
+    records = gen_records(rng, n, paired, fastq, plant1, ad2, P["maxlen"], r2max, P["upper_only"], times, revcomp)
+    if records and not big and rng.random() < P["p_long_tail"]:
+        # reads of a few kb (amplicons, long-read data) with the adapters far from the ends: removed
+        # sequences of a thousand bases and more, the same lengths again and again
+        lens = [rng.choice([1030, 1100, 1500]), rng.choice([1024, 2100, 3020])]
+        at_end = rng.random() < 0.6
+        for r_ in records:
+            if rng.random() < 0.6:
+                L = rng.choice(lens)
+                extra, equal = rand_seq(rng, L), gen_qual(rng, L)
+                r_[3] = r_[3] + extra if at_end else extra + r_[3]
+                if r_[4] is not None:
+                    r_[4] = r_[4] + equal if at_end else equal + r_[4]
+    if len(records) >= 2 and rng.random() < P["p_adjacent_duplicates"]:
+        # PCR duplicates: a read (pair) with exactly the sequences of the one before it, under its own name
+        for k_ in range(1, len(records)):
+            if rng.random() < 0.25:
+                for fi in (3, 4, 5, 6):
+                    records[k_][fi] = records[k_ - 1][fi]
+    if records and big and not many and rng.random() < (0.5 if big < 3 else 0.8):
         # a file whose composition changes along its length (a run that starts badly): the first part
         # holds mostly very short reads, so what each chunk contributes to each output file varies
         cut = int(len(records) * rng.uniform(0.2, 0.7))
@@ -910,6 +949,8 @@ def gen_case(rng, profile=None):
     if want_same_name and len(names1) >= 2 and not aux_files:
         # two barcodes of one sample: two adapters (different sequences) under the same name
         k_, j_ = rng.sample(range(len(names1)), 2)
+        if want_same_name == "ends":
+            k_, j_ = len(ad1) - 1, 0
         old = names1[k_]
         if old is not None and names1[j_] is not None and old != names1[j_]:
             for g in opts:
